@@ -42,10 +42,28 @@ func directLits(n ast.Node) []*ast.FuncLit {
 	return out
 }
 
+// litSig: the literal's parameter and result types (names left out: renaming a parameter does not make another literal).
 func litSig(fset *token.FileSet, fl *ast.FuncLit) string {
-	var buf bytes.Buffer
-	printer.Fprint(&buf, fset, fl.Type)
-	return strings.Join(strings.Fields(buf.String()), " ")
+	part := func(l *ast.FieldList) string {
+		if l == nil {
+			return ""
+		}
+		var ts []string
+		for _, f := range l.List {
+			var buf bytes.Buffer
+			printer.Fprint(&buf, fset, f.Type)
+			t := strings.Join(strings.Fields(buf.String()), " ")
+			n := len(f.Names)
+			if n == 0 {
+				n = 1
+			}
+			for i := 0; i < n; i++ {
+				ts = append(ts, t)
+			}
+		}
+		return strings.Join(ts, ",")
+	}
+	return "(" + part(fl.Type.Params) + ")(" + part(fl.Type.Results) + ")"
 }
 
 func litCalls(fl *ast.FuncLit) []string {
